@@ -55,7 +55,9 @@ def _plain_networkx_dicts():
 _plain_networkx_dicts()
 
 PAIRS = [(0, 1), (0, 2), (1, 2), (0, 3), (1, 3), (2, 3), (0, 4), (1, 4), (2, 4), (3, 4)]
-_real_uuid = W.uuid
+import uuid as _uuid_module  # noqa: E402
+
+_real_uuid = getattr(W, 'uuid', _uuid_module)
 
 
 class _FakeUuid:
@@ -625,6 +627,43 @@ def static_str_inputs__twin(e01: bool, e02: bool, e12: bool, a: str, b: str, c: 
     return not static_str_inputs(e01, e02, e12, a, b, c, k)
 
 
+def keys_unique(e01: bool, e02: bool, e12: bool, same_names: bool, n: int) -> bool:
+    """
+    Task keys of the dask graph are unique within one graph and across graphs (sub-workflows started with
+    call_workflow share one scheduler, so two graphs of the same shape must not share task keys; only the sink alias
+    'results' is common).  Two workflows of the same symbolic shape, n in 1..3 tasks, optionally with identical task names.
+    pre: 1 <= n <= 3
+    post: _ == True
+    """
+    _fresh()
+    dicts = []
+    for w in range(2):
+        calls = []
+        tasks = [Task(f't{i}' if same_names else f'w{w}t{i}', _mk(i, calls), i) for i in range(n)]
+        edges = [(i, j) for (i, j), e in zip(PAIRS[:3], (e01, e02, e12)) if e and j < n]
+        wb = WorkflowBuilder()
+        for j in range(n):
+            p = [tasks[i] for (i, jj) in edges if jj == j]
+            wb.add_task(tasks[j], predecessors=p if p else None)
+        wf = Workflow(wb)
+        if len(wf.output_tasks) != 1:
+            return True
+        d = wf.as_dask_dict()
+        if len(d) != n or 'results' not in d:       # the sink is keyed 'results', every other task has its own key
+            return False
+        dicts.append(d)
+    return (set(dicts[0]) & set(dicts[1])) <= {'results'}
+
+
+def keys_unique__twin(e01: bool, e02: bool, e12: bool, same_names: bool, n: int) -> bool:
+    """
+    pre: 1 <= n <= 3
+    pre: n == 2 and e01
+    post: _ == True
+    """
+    return not keys_unique(e01, e02, e12, same_names, n)
+
+
 # ---------------------------------------------------------------------------------------------------------
 # warm-up: networkx compiles its dispatch wrappers lazily with exec(), which fails under CrossHair's tracing; run
 # every obligation once concretely at import so that all networkx entry points used above are already built.
@@ -652,6 +691,7 @@ def _warm():
         ok.append(add_operator(T, F, F, T, F, F, T, T))
         ok.append(add_operator(T, F, F, T, F, F, F, F))
         ok.append(static_str_inputs(T, F, T, 'ab', 'c', '', 1))
+        ok.append(keys_unique(T, F, T, T, 3))
         w = WorkflowBuilder()
         t = Task('w', _mk(0, []), 1)
         w.add_task(t)
